@@ -3,6 +3,7 @@
    theorems are those of the one-direction channel LTS (model/Chan1.v) at those capacities. *)
 From Coq Require Import ZArith List Bool Lia.
 From Grpchan Require Import gen.Inproc model.Chan1 proofs.Chan1.
+From Grpchan Require model.InprocStream proofs.StreamInv.
 Import ListNotations.
 Close Scope Z_scope.
 
@@ -38,3 +39,13 @@ Print Assumptions C20_memory.
 
 Theorem C20_tight : exists s, reachable 1 s /\ length (sent_ok s) = 2 /\ length (taken s) = 1 /\ got s = [7%Z].
 Proof. exact tight_run. Qed.
+
+(* The complete in-process stream (model/InprocStream.v), every reachable state: each direction
+   buffers at most the generated capacity, whatever the four actors do and in whatever order. *)
+Theorem C20_full_stream_buffers : forall rs s,
+  StreamInv.reachable rs s ->
+  length (InprocStream.reqQ s) <= InprocStream.req_capn /\ length (InprocStream.respQ s) <= InprocStream.resp_capn.
+Proof. exact StreamInv.reachable_queues_bounded. Qed.
+Print Assumptions C20_full_stream_buffers.
+Theorem C20_full_stream_caps : InprocStream.req_capn = 1 /\ InprocStream.resp_capn = 1.
+Proof. split; reflexivity. Qed.
